@@ -94,9 +94,14 @@ def check(R):
         dd = R.body(PH + '::ProtoHdr::decrypt_and_decode')
         wr = sorted({i for i, j, s in dd.stmts() if any(isinstance(x, str) and x.endswith(':' + PH + '::ProtoHdr') for x in s[0][1:])})
         R.floor('ProtoHdr field writes in decrypt_and_decode', len(wr), 4)
-        R.cut_from('P2', dd, dd.calls(PH + '::decrypt_in_place')[0].bb, 'write decoded proto header fields', wr, 'decrypt_in_place ok',
-                   lambda: R.call_guard(dd, PH + '::decrypt_in_place'))
-        di = R.body(PH + '::decrypt_in_place')
+        # the function of this module that hands the buffer to the AEAD (whatever it is called)
+        dis = [b_ for b_ in F.bodies.values() if b_.focus and b_.fn.startswith(PH + '::') and '::tests::' not in b_.fn and 'crypto::Aead::decrypt_in_place' in b_.calls_summary]
+        R.floor('functions of proto_hdr calling Aead::decrypt_in_place', len(dis), 1)
+        di = dis[0]
+        dcalls = [t for t in dd.calls() if (t.d.get('r') or t.d.get('f', '')) == di.fn] or [t for t in dd.calls() if di.fn in R._guard_wrappers((di.fn,)) ]
+        R.floor('decryption call in decrypt_and_decode', len(dcalls), 1)
+        R.cut_from('P2', dd, dcalls[0].bb, 'write decoded proto header fields', wr, 'decryption ok',
+                   lambda: R.call_guard(dd, di.fn))
         R.cut('P2', di, 'return Ok', ok_return_bbs(di), 'Aead::decrypt_in_place ok', lambda: R.call_guard(di, 'crypto::Aead::decrypt_in_place'))
         R.cut('P2', di, 'return Ok', ok_return_bbs(di), 'get_iv ok', lambda: R.call_guard(di, PH + '::get_iv'))
 
@@ -104,13 +109,29 @@ def check(R):
     with R.clause('b'):
         pass
         dec = di.calls('crypto::Aead::decrypt_in_place')[0]
-        s = prims.sources(di, dec.d['a'][3], through={'utils::storage::parsebuf::ReadBuf::parsed_as_slice', 'core::slice::<impl [T]>::len'})
-        R.expect('P10', di.fn, 'AAD is the already-parsed (plain) header of the same buffer',
-                 'utils::storage::parsebuf::ReadBuf::parsed_as_slice' in src_calls(s) and ('arg', 6) in s, 'aad <= parsebuf.parsed_as_slice()',
-                 f'aad sources {sorted(map(str, s))[:8]}', di.where(dec.bb))
+        THR = {'utils::storage::parsebuf::ReadBuf::parsed_as_slice', 'core::slice::<impl [T]>::len', 'utils::storage::writebuf::WriteBuf::as_slice'}
+
+        def through_params(body_, operand, depth=2):
+            # the slice of an operand, followed through parameters into the call sites of the function (within this module)
+            s_ = prims.sources(body_, operand, through=THR)
+            out = set(s_)
+            if depth > 0:
+                for x in [x for x in s_ if x[0] == 'arg']:
+                    for cb in F.bodies.values():
+                        if not cb.focus or not cb.fn.startswith(PH + '::') or '::tests::' in cb.fn:
+                            continue
+                        for t_ in cb.calls():
+                            if (t_.d.get('r') or t_.d.get('f', '')) == body_.fn and len(t_.d['a']) >= x[1]:
+                                out |= {y for y in through_params(cb, t_.d['a'][x[1] - 1], depth - 1) if y[0] != 'arg'} | {('via', cb.fn)}
+            return out
+        s = through_params(di, dec.d['a'][3])
+        reenc = sorted(c for c in src_calls(s) if c.endswith(('PlainHdr::encode', 'WriteBuf::as_slice', 'WriteBuf::new')))
+        R.expect('P10', di.fn, 'AAD is the received (already parsed) plain-header bytes of the same buffer - not a re-encoding of the decoded header',
+                 'utils::storage::parsebuf::ReadBuf::parsed_as_slice' in src_calls(s) and not reenc, 'aad <= parsebuf.parsed_as_slice()',
+                 f'aad derives from {reenc or sorted(src_calls(s))[:5]}: whatever the header parser ignores or normalises (reserved bits) is no longer covered by the tag', di.where(dec.bb))
         s = prims.sources(di, dec.d['a'][4], through={'utils::storage::parsebuf::ReadBuf::as_mut_slice'})
         R.expect('P10', di.fn, 'ciphertext is the unparsed remainder of the same buffer',
-                 'utils::storage::parsebuf::ReadBuf::as_mut_slice' in src_calls(s) and ('arg', 6) in s, 'cipher_text <= parsebuf.as_mut_slice()',
+                 'utils::storage::parsebuf::ReadBuf::as_mut_slice' in src_calls(s), 'cipher_text <= parsebuf.as_mut_slice()',
                  f'sources {sorted(map(str, s))[:8]}', di.where(dec.bb))
         pe = R.body('transport::packet::PacketHdr::encode')
         enc = pe.calls(PH + '::encrypt_in_place')
@@ -135,7 +156,7 @@ def check(R):
         shape = [(w, sorted(x[1] for x in s if x[0] == 'arg')) for (_, w, s) in seq]
         R.expect('P5', iv.fn, 'nonce layout is flags:u8 | counter:u32 | node id:u64 from the parameters',
                  shape == [('le_u8', [1]), ('le_u32', [2]), ('le_u64', [3])], str(shape), f'nonce layout is {shape}', f'{iv.file}:{iv.line}')
-        for fn, callee in ((PH + '::decrypt_in_place', PH + '::get_iv'), (PH + '::encrypt_in_place', PH + '::get_iv')):
+        for fn, callee in ((di.fn, PH + '::get_iv'), (PH + '::encrypt_in_place', PH + '::get_iv')):
             b = R.body(fn)
             t = b.calls(callee)[0]
             shape = [sorted(x[1] for x in prims.sources(b, a) if x[0] == 'arg') for a in t.d['a'][:3]]
@@ -146,7 +167,7 @@ def check(R):
             R.expect('P10', b.fn, 'cipher key is the key parameter and nonce is the get_iv output',
                      ('arg', 2) in ks and any(x[0] == 'constp' and x[1].endswith('AEAD_NONCE_ZEROED') for x in ns),
                      'key <= param, nonce <= iv', f'key {sorted(map(str, ks))[:4]} nonce {sorted(map(str, ns))[:4]}', b.where(aead.bb))
-        t = dd.calls(PH + '::decrypt_in_place')[0]
+        t = dcalls[0]
         a = t.d['a']
         s_flags, s_ctr, s_node = (prims.sources(dd, a[2], through={'transport::plain_hdr::_::<impl transport::plain_hdr::MsgFlags>::bits'}), prims.sources(dd, a[3]), prims.sources(dd, a[4]))
         R.expect('P10', dd.fn, 'decrypt nonce: flags <= plain_hdr.sec_flags, ctr <= plain_hdr.ctr, node <= peer_nodeid parameter',
@@ -190,6 +211,12 @@ def check(R):
                and 'transport::plain_hdr::PlainHdr::is_encrypted' in src_calls(prims.sources(ifr, c[3]) | prims.sources(ifr, c[4]))]
         R.expect('P9', ifr.fn, 'encryption kind of session and header are compared', bool(encs) and bool(hdr_encs) and bool(eqs),
                  'self.is_encrypted() == rx_plain.is_encrypted()', 'the comparison of encryption kinds is missing')
+        # "secured" is decided from the session id AND the group-session flag: a Group Session Id is 16 bits of a key hash, 0 is a legal value
+        pie = R.body('transport::plain_hdr::PlainHdr::is_encrypted')
+        ok_s, why_s = prims.field_influences_result(pie, 'sess_id:transport::plain_hdr::PlainHdr')
+        grp = 'transport::plain_hdr::PlainHdr::is_group_session' in pie.calls_summary or prims.field_influences_result(pie, 'sec_flags:transport::plain_hdr::PlainHdr')[0]
+        R.expect('P9', pie.fn, 'a packet counts as secured when its session id is non-zero OR it is a group-session packet', ok_s and grp, 'sess_id != 0 || is_group_session()',
+                 'the group-session flag is not consulted: a group packet whose Group Session Id happens to be 0 is treated as unsecured - its ciphertext parsed as a cleartext header, and dropped')
         g = R.body('transport::session::Sessions::get_for_rx')
         R.expect('P4', g.fn, 'lookup uses Session::is_for_rx', any(SESS + '::is_for_rx' in b.calls_summary for b in [g] + F.nested(g.fn)), 'find(|s| s.is_for_rx(..))', 'is_for_rx not used')
         for fld in ('dec_key', 'enc_key'):
